@@ -9,6 +9,7 @@ from hexital.core.candle_manager import CandleManager
 from .catalogue import build, mk_candles
 
 ROUTES = ("manager", "indicator", "hexital_member", "hexital_level")
+TF_AS_ENUM = False     # set by an executor: the bare-manager route passes the timeframe as a TimeFrame member
 EMA3 = {"cls": "EMA", "params": {"period": 3}, "common": {}}
 
 
@@ -43,7 +44,15 @@ def build_route(route, tf, rows, fill=False, lifespan_s=None, ctype=None, spec=N
             from hexital.utils.candlesticks import validate_candlesticktype
 
             ct = validate_candlesticktype(ctype)
-        m = CandleManager(candles, candles_lifespan=life, timeframe=tf, timeframe_fill=fill,
+        tf_arg = tf
+        if TF_AS_ENUM and tf:
+            from hexital.utils.timeframe import TimeFrame
+
+            try:
+                tf_arg = TimeFrame(tf.upper())     # the documented alternative: an enum member
+            except ValueError:
+                pass
+        m = CandleManager(candles, candles_lifespan=life, timeframe=tf_arg, timeframe_fill=fill,
                           candlestick_type=ct)
         return m, m, (lambda: m.candles)
     if route == "indicator":
